@@ -15,7 +15,7 @@ Local Open Scope N_scope.
 
 (* ---- all conjuncts of the quantifier ---------------------------------------------------------- *)
 Record quantified (e : entity) : Prop := mkQd {
-  q_enums : decl_enums_ok e = true;
+  q_enums : sp_enums_ok e = true;
   q_name : name_ok (e_name e) = true;
   q_pkg : pkg_ok (e_pkg e) = true;
   q_base : (is_nil (e_base_url e) || (rel_path_ok (e_base_url e) && is_nil (colon_params (e_base_url e)))) = true;
@@ -45,14 +45,153 @@ Record quantified (e : entity) : Prop := mkQd {
               | None => true
               end = true }.
 
+(* ---- the package scopes are duplicate-free: DERIVED from the user's names being distinct ------------------- *)
+Lemma NoDup_map_app_head : forall (c : bytes) (l : list bytes), NoDup l -> NoDup (map (app c) l).
+Proof.
+  intros c l H. induction H as [|x l Hn _ IH]; cbn; constructor; [|exact IH].
+  intros Hin. apply in_map_iff in Hin. destruct Hin as [y [Hy Hin]]. apply app_inv_head in Hy. now subst.
+Qed.
+
+Lemma NoDup_of_map : forall {A B} (f : A -> B) l, NoDup (map f l) -> NoDup l.
+Proof.
+  intros A B f l. induction l as [|x l IH]; intros H; [constructor|]. cbn in H. inversion H as [|? ? Hn Hd]; subst.
+  constructor; [|now apply IH]. intros Hin. apply Hn. now apply in_map.
+Qed.
+
+Lemma has_prefix_split : forall p x, has_prefix p x = true -> exists t, x = p ++ t.
+Proof.
+  induction p as [|c p IH]; intros x H; [now exists x|]. destruct x as [|y x]; [discriminate|].
+  cbn in H. apply andb_true_iff in H. destruct H as [Hc Hp]. apply N.eqb_eq in Hc. subst y.
+  destruct (IH x Hp) as [t ->]. now exists t.
+Qed.
+
+Lemma alnum_no_underscore : forall x, forallb alnum x = true -> ~ In 95 x.
+Proof. intros x H Hin. rewrite forallb_forall in H. specialize (H 95 Hin). discriminate. Qed.
+
+(* every value of the status enum carries the prefix <SCREAMING>_STATUS_ *)
+Lemma sp_value_name_prefix : forall p s, has_prefix p (sp_value_name p s) = true.
+Proof. intros p s. unfold sp_value_name. destruct (has_prefix p s) eqn:E; [exact E|apply has_prefix_app]. Qed.
+Lemma enum_values_prefixed : forall p l n0 v, In v (sp_enum_values_n p l n0) -> has_prefix p v = true.
+Proof.
+  intros p [|s r] n0 v H; cbn [sp_enum_values_n] in H.
+  - destruct H as [<-|[]]. apply has_prefix_app.
+  - destruct (sp_explicit_zero p s && (n0 =? 0)).
+    + apply in_map_iff in H. destruct H as [o [<- _]]. apply sp_value_name_prefix.
+    + destruct H as [<-|H]; [apply has_prefix_app|]. apply in_map_iff in H. destruct H as [o [<- _]]. apply sp_value_name_prefix.
+Qed.
+
+(* the status values are pairwise distinct because their protobuf canonical names are (sp_enums_ok) *)
+Lemma status_values_nodup : forall e, sp_enums_ok e = true ->
+  NoDup (sp_enum_values_n (sp_status_prefix e) (e_status e) (sp_first_number e)).
+Proof.
+  intros e H. unfold sp_enums_ok in H. apply andb_true_iff in H. destruct H as [H _].
+  apply andb_true_iff in H. destruct H as [H _]. unfold sp_canonical_distinct in H.
+  apply nodup_bytes_NoDup in H. now apply NoDup_of_map in H.
+Qed.
+
+Lemma NoDup_insert_mid : forall {A} (a b c : list A),
+  NoDup (a ++ c) -> NoDup b -> (forall x, In x (a ++ c) -> ~ In x b) -> NoDup (a ++ b ++ c).
+Proof.
+  induction a as [|x a IH]; intros b c Hac Hb Hd; cbn [app] in *.
+  - apply NoDup_app_intro; [exact Hb|exact Hac|]. intros y Hy Hin. exact (Hd y Hin Hy).
+  - inversion Hac as [|? ? Hn Hac']; subst. constructor.
+    + intros Hin. apply in_app_or in Hin. destruct Hin as [Hin|Hin]; [apply Hn; apply in_or_app; now left|].
+      apply in_app_or in Hin. destruct Hin as [Hin|Hin]; [exact (Hd x (or_introl eq_refl) Hin)|].
+      apply Hn. apply in_or_app. now right.
+    + apply IH; [exact Hac'|exact Hb|]. intros y Hy. apply Hd. now right.
+Qed.
+
+Lemma generated_main_nodup : forall e, sp_enums_ok e = true -> NoDup (sp_main_generated e).
+Proof.
+  intros e He. unfold sp_main_generated.
+  set (vals := sp_enum_values_n (sp_status_prefix e) (e_status e) (sp_first_number e)).
+  assert (Hsix : NoDup (map (app (sp_camel e)) [bs "Keys"; bs "Data"; bs "Status"; bs "State"; bs "EventType"; bs "Event"])).
+  { apply NoDup_map_app_head. apply nodup_bytes_NoDup. vm_compute. reflexivity. }
+  assert (Hv : NoDup vals) by (now apply status_values_nodup).
+  assert (Hdis : forall x, In x (map (app (sp_camel e)) [bs "Keys"; bs "Data"; bs "Status"; bs "State"; bs "EventType"; bs "Event"]) -> ~ In x vals).
+  { intros x Hx Hin. pose proof (enum_values_prefixed _ _ _ _ Hin) as Hp. destruct (has_prefix_split _ _ Hp) as [t ->].
+    apply in_map_iff in Hx. destruct Hx as [sfx [Hx Hs]].
+    assert (Ha : forallb alnum (sp_camel e ++ sfx) = true).
+    { rewrite forallb_app. unfold sp_camel. rewrite to_camel_alnum. cbn [andb].
+      destruct Hs as [<-|[<-|[<-|[<-|[<-|[<-|[]]]]]]]; reflexivity. }
+    rewrite Hx in Ha. apply (alnum_no_underscore _ Ha). apply in_or_app. left.
+    unfold sp_status_prefix. apply in_or_app. right. cbn. auto. }
+  cbn [map] in Hsix, Hdis. unfold sp_name.
+  (* [K;D;S] ++ vals ++ [St;ET;Ev]: the values inserted into the six names *)
+  apply (NoDup_insert_mid [sp_camel e ++ bs "Keys"; sp_camel e ++ bs "Data"; sp_camel e ++ bs "Status"] vals
+                          [sp_camel e ++ bs "State"; sp_camel e ++ bs "EventType"; sp_camel e ++ bs "Event"]);
+    [exact Hsix|exact Hv|exact Hdis].
+Qed.
+
+Lemma generated_service_nodup : forall e, NoDup (sp_service_generated e).
+Proof.
+  intros e. unfold sp_service_generated.
+  change (NoDup (map (app (sp_query_prefix e)) [bs "GetRequest"; bs "GetResponse"; bs "ListRequest"; bs "ListResponse";
+                                                bs "EventsRequest"; bs "EventsResponse"; bs "QueryService"])).
+  apply NoDup_map_app_head. apply nodup_bytes_NoDup. vm_compute. reflexivity.
+Qed.
+
+Lemma last_app_nonempty : forall (a b : bytes) d, b <> [] -> last (a ++ b) d = last b d.
+Proof.
+  induction a as [|x a IH]; intros b d Hb; [reflexivity|]. cbn [app]. rewrite <- (IH b d Hb).
+  destruct (a ++ b) eqn:E; [|reflexivity]. apply app_eq_nil in E. destruct E as [_ E]. contradiction.
+Qed.
+
+Lemma generated_topic_nodup : forall e, NoDup (sp_topic_generated e).
+Proof.
+  intros e. unfold sp_topic_generated. constructor; [|repeat constructor; intros []].
+  intros [E|[]]. assert (L : last (to_camel (sp_camel e ++ bs "Publish") ++ bs "Topic") 0 = last (sp_camel e ++ bs "EventMessage") 0) by (now rewrite E).
+  rewrite !last_app_nonempty in L by discriminate. vm_compute in L. discriminate.
+Qed.
+
+Lemma disjoint_bytes_spec : forall a b, disjoint_bytes a b = true -> forall x, In x a -> ~ In x b.
+Proof.
+  intros a b H x Hx Hin. unfold disjoint_bytes in H. rewrite forallb_forall in H. specialize (H x Hx).
+  apply negb_true_iff in H. apply existsb_bytes_In in Hin. congruence.
+Qed.
+
+Lemma scope_of_parts : forall gen user, NoDup gen -> nodup_bytes user = true -> disjoint_bytes user gen = true ->
+  nodup_bytes (gen ++ user) = true.
+Proof.
+  intros gen user Hg Hu Hd. apply nodup_bytes_NoDup. apply NoDup_app_intro; [exact Hg|now apply nodup_bytes_NoDup|].
+  intros x Hx Hin. exact (disjoint_bytes_spec _ _ Hd x Hin Hx).
+Qed.
+
+Theorem main_scope_distinct : forall e, sp_enums_ok e = true ->
+  nodup_bytes (sp_main_user e) = true -> disjoint_bytes (sp_main_user e) (sp_main_generated e) = true ->
+  nodup_bytes (sp_main_scope e) = true.
+Proof.
+  intros e He Hu Hd.
+  replace (sp_main_scope e) with (sp_main_generated e ++ sp_main_user e)
+    by (unfold sp_main_scope, sp_main_generated, sp_main_user; rewrite <- !app_assoc; reflexivity).
+  apply scope_of_parts; [now apply generated_main_nodup|exact Hu|exact Hd].
+Qed.
+Theorem service_scope_distinct : forall e,
+  nodup_bytes (sp_service_user e) = true -> disjoint_bytes (sp_service_user e) (sp_service_generated e) = true ->
+  nodup_bytes (sp_service_scope e) = true.
+Proof. intros e Hu Hd. exact (scope_of_parts _ _ (generated_service_nodup e) Hu Hd). Qed.
+Theorem topic_scope_distinct : forall e,
+  nodup_bytes (sp_topic_user e) = true -> disjoint_bytes (sp_topic_user e) (sp_topic_generated e) = true ->
+  nodup_bytes (sp_topic_scope e) = true.
+Proof. intros e Hu Hd. exact (scope_of_parts _ _ (generated_topic_nodup e) Hu Hd). Qed.
+
 Lemma quantified_of : forall e, in_quantifier e = true -> quantified e.
 Proof.
   intros e H. unfold in_quantifier in H.
   repeat match type of H with
          | (_ && _) = true => apply andb_true_iff in H; let H' := fresh "Q" in destruct H as [H H']
          end.
+  match goal with U : user_names_ok e = true |- _ =>
+    unfold user_names_ok in U;
+    repeat match type of U with
+           | (_ && _) = true => apply andb_true_iff in U; let U' := fresh "U" in destruct U as [U U']
+           end
+  end.
   constructor; try assumption.
   - intros E. rewrite E in *. discriminate.
+  - apply main_scope_distinct; assumption.
+  - apply service_scope_distinct; assumption.
+  - apply topic_scope_distinct; assumption.
   - now apply negb_true_iff.
 Qed.
 
@@ -517,21 +656,60 @@ Proof. intros fs H. unfold fields_wf in H. apply andb_true_iff in H. tauto. Qed.
 
 Definition all_nodup_l (l : list (list bytes)) : Prop := Forall (fun sc => NoDup sc) l.
 
-Lemma status_values_names_n : forall p l n0, map fst (status_values_n p l n0) = sp_enum_values_n p l n0.
-Proof.
-  intros p [|s r] n0; [reflexivity|]. cbn [status_values_n sp_enum_values_n].
-  change (sp_explicit_zero p s) with (is_explicit_zero p s).
-  destruct (is_explicit_zero p s && (n0 =? 0)); cbn [map fst]; rewrite number_from_names; reflexivity.
-Qed.
-Lemma status_values_names : forall p l, map fst (status_values p l) = sp_enum_values p l.
-Proof. intros p l. apply status_values_names_n. Qed.
-
 (* the inline types of a message of user fields: names and scopes *)
 Lemma inline_enum_values_eq : forall n os,
   map fst (status_values (to_screaming_snake n ++ [95]) os) = sp_inline_enum_values n os.
 Proof.
   intros n os. rewrite status_values_names. unfold sp_inline_enum_values, sp_enum_values, sp_enum_values_n.
   destruct os as [|o r]; [reflexivity|]. rewrite andb_true_r. reflexivity.
+Qed.
+
+(* the spec's statement of "enum options are distinct names for protobuf" is the check the model of the converter
+   runs on the enums it builds *)
+Lemma forallb_ext_pt : forall {A} (f g : A -> bool) l, (forall x, f x = g x) -> forallb f l = forallb g l.
+Proof. intros A f g l H. induction l as [|a l IH]; [reflexivity|]. cbn. now rewrite H, IH. Qed.
+Lemma forallb_map_comp : forall {A B} (f : B -> bool) (g : A -> B) l, forallb f (map g l) = forallb (fun x => f (g x)) l.
+Proof. induction l as [|a l IH]; [reflexivity|]. cbn. now rewrite IH. Qed.
+
+Lemma enum_accepts_names : forall n vs, enum_accepts n vs = sp_canonical_distinct n (map fst vs).
+Proof. intros n vs. unfold enum_accepts, sp_canonical_distinct. now rewrite map_map. Qed.
+
+Lemma inline_enum_ok_eq : forall j c n k r q fl p te fi fo o fs os tr d kf,
+  inline_enum_ok (mkF13 j (inline_type c (to_camel n) k) r q fl p te fi fo o (Some (mkInl4 k fs os tr)) d kf)
+  = sp_inline_enum_ok n k os.
+Proof.
+  intros. unfold inline_enum_ok, sp_inline_enum_ok. rewrite inline_of_inline_type. cbn [il_kind il_options].
+  destruct (k =? 2); [|reflexivity]. now rewrite enum_accepts_names, inline_enum_values_eq.
+Qed.
+
+Lemma tfield_enums_ok_eq : forall t, tfield_enums_ok t = sp_tfield_enums_ok t.
+Proof.
+  fix IH 1. intros [n k r o d]. destruct k as [i|i|i|ik c fs os]; try reflexivity.
+  cbn [tfield_enums_ok sp_tfield_enums_ok of_tfield]. rewrite inline_enum_ok_eq. f_equal.
+  induction fs as [|t fs IHfs]; [reflexivity|]. cbn [forallb]. now rewrite IH, IHfs.
+Qed.
+
+Lemma ufield_enums_ok_eq : forall u, ufield_enums_ok u = sp_ufield_enums_ok u.
+Proof.
+  intros [n k r o d kf c]. unfold ufield_enums_ok, sp_ufield_enums_ok, of_ufield, tree_of. cbn [uf_kind uf_name uf_container uf_desc uf_required uf_optional uf_keyfmt].
+  destruct k as [pt j|m|m|m|p f t|tn j|i|i|sfs|sfs|os|tk tfs]; cbn [f_inline il_tree forallb andb];
+    try (unfold inline_enum_ok; rewrite inline_of_none by reflexivity; reflexivity).
+  - rewrite inline_enum_ok_eq. reflexivity.
+  - rewrite inline_enum_ok_eq. reflexivity.
+  - rewrite inline_enum_ok_eq, andb_true_r. reflexivity.
+  - rewrite inline_enum_ok_eq. f_equal.
+    induction tfs as [|t tfs IH]; [reflexivity|]. cbn [forallb]. now rewrite tfield_enums_ok_eq, IH.
+Qed.
+
+Theorem enums_ok_eq : forall e, sp_enums_ok e = decl_enums_ok e.
+Proof.
+  intros e. unfold sp_enums_ok, decl_enums_ok, client_accepts. cbn [forallb status_enum].
+  rewrite enum_accepts_names. unfold entity_status_values. rewrite status_values_names_n, cn_status.
+  change (first_status_number e) with (sp_first_number e). change (status_prefix e) with (sp_status_prefix e).
+  f_equal; [f_equal|].
+  - rewrite forallb_map_comp. apply forallb_ext_pt. intros [n fs|n fs|n os]; try reflexivity.
+    cbn [schema_component]. now rewrite enum_accepts_names, status_values_names.
+  - apply forallb_ext_pt. intros u. symmetry. apply ufield_enums_ok_eq.
 Qed.
 
 Lemma user_inline_names : forall fs, inline_names (map of_ufield fs) = sp_inline_names fs.
@@ -1409,7 +1587,7 @@ Proof.
   exists (expand_with e fl). unfold compile, compile_file. cbn [existsb].
   destruct (e_status e) as [|s0 sr] eqn:Es; [exfalso; exact (q_status_ne e Q Es)|]. cbn [is_nil orb].
   pose proof Hr as Hr'. rewrite reserved_free_split in Hr'. apply andb_true_iff in Hr'. destruct Hr' as [Hw Ho].
-  rewrite walk_all_single. unfold walk. rewrite Hw, (convert_expand _ _ Hc). cbn [forallb]. rewrite Ho, (q_enums e Q). cbn [andb].
+  rewrite walk_all_single. unfold walk. rewrite Hw, (convert_expand _ _ Hc). cbn [forallb]. rewrite Ho, <- enums_ok_eq, (q_enums e Q). cbn [andb].
   rewrite convert_all_single, Hc, app_nil_r, (link_accepts e fl Q Hr). reflexivity.
 Qed.
 
@@ -1453,6 +1631,21 @@ Theorem full_modulo_reserved : forall e, in_quantifier e = true -> reserved_free
 Proof.
   intros e Hq Hr. destruct (acceptance e Hq Hr) as [cs Hc]. exists cs. split; [exact Hc|].
   destruct (full_partial e cs Hc) as [H1 H2]. split; [exact H1|exact (H2 Hq)].
+Qed.
+
+(* the remaining clauses - exact names, query settings - hold for everything the model of the compiler accepts *)
+Theorem accepted_names_settings : forall e cs, compile e = Ok cs -> spec_names e cs /\ spec_query_settings e cs.
+Proof.
+  intros e cs H. destruct (compile_inv e cs H) as [_ [_ [_ [fl [Hf [-> _]]]]]].
+  split; [apply spec_names_holds|now apply spec_query_settings_holds].
+Qed.
+
+(* THE FULL STATEMENT WITH EVERY CLAUSE of the specification *)
+Theorem full_all_clauses : forall e, in_quantifier e = true -> reserved_free e = true ->
+  exists cs, compile e = Ok cs /\ C17_spec_all e cs.
+Proof.
+  intros e Hq Hr. destruct (full_modulo_reserved e Hq Hr) as [cs [Hc Hs]]. exists cs. split; [exact Hc|].
+  destruct (accepted_names_settings e cs Hc) as [Hn Hg]. split; [exact Hs|]. split; [exact Hn|exact Hg].
 Qed.
 
 (* an entity named Page: its own property in the List response is "page", next to the page field *)
@@ -1609,7 +1802,7 @@ Proof.
   { apply forallb_forall. intros e He. rewrite Forall_forall in Hall. destruct (Hall e He) as [_ Hr].
     rewrite reserved_free_split in Hr. apply andb_true_iff in Hr. exact (proj2 Hr). }
   assert (He : forallb decl_enums_ok es = true).
-  { apply forallb_forall. intros e He. rewrite Forall_forall in HQ. exact (q_enums e (HQ e He)). }
+  { apply forallb_forall. intros e He. rewrite Forall_forall in HQ. rewrite <- enums_ok_eq. exact (q_enums e (HQ e He)). }
   rewrite Ho, He, Hc, Hl. reflexivity.
 Qed.
 
@@ -1621,7 +1814,7 @@ Proof. intros es H. destruct (file_acceptance_parts es H) as [l [_ Hc]]. now exi
    the specification for its declaration *)
 Theorem file_full_modulo_reserved : forall es, file_quantifier es = true ->
   exists l, compile_file es = Ok (concat l)
-            /\ Forall2 (fun e cs => compile e = Ok cs /\ C17_spec e cs) es l.
+            /\ Forall2 (fun e cs => compile e = Ok cs /\ C17_spec_all e cs) es l.
 Proof.
   intros es H. destruct (file_acceptance_parts es H) as [l [HF Hc]]. exists l. split; [exact Hc|].
   assert (Hall : forall e, In e es -> in_quantifier e = true /\ reserved_free e = true).
@@ -1630,7 +1823,7 @@ Proof.
     rewrite forallb_forall in H. specialize (H e He). now apply andb_true_iff in H. }
   clear H Hc. induction HF as [|e cs es l Hcv _ IH]; [constructor|]. constructor.
   - destruct (Hall e (or_introl eq_refl)) as [Hq Hr].
-    destruct (full_modulo_reserved e Hq Hr) as [cs' [Hc' Hs']].
+    destruct (full_all_clauses e Hq Hr) as [cs' [Hc' Hs']].
     destruct (compile_inv e cs' Hc') as [_ [Hcv' _]]. rewrite Hcv in Hcv'. inversion Hcv'; subst cs'. split; assumption.
   - apply IH. intros e' He'. apply Hall. now right.
 Qed.
